@@ -119,6 +119,7 @@ def RetryFits (c : ChainIn) : Prop := c.ri.getD defRi * 1000000000 < 2 ^ 63
 
 inductive V where
   | num (n : Int) (isFloat : Bool)   -- Go `int` or `float64` holding an integer
+  | frac (milli : Int)               -- a float64 that is not an integer: milli / 1000 (written with ≤ 3 decimals)
   | str (s : String)
   | bool (b : Bool)
 deriving DecidableEq, Repr
@@ -126,6 +127,7 @@ deriving DecidableEq, Repr
 /-- mergo's `isEmptyValue` -/
 def V.isEmpty : V → Bool
   | .num n _ => n == 0
+  | .frac m => m == 0
   | .str s => s == ""
   | .bool b => !b
 
@@ -133,9 +135,16 @@ abbrev Chain := List (String × V)
 
 def Chain.get (c : Chain) (k : String) : Option V := (c.find? (·.1 == k)).map (·.2)
 
-/-- `compareDomainID`: numeric equality across int / float64, false for anything else -/
-def sameId : Option V → Option V → Bool
-  | some (.num a _), some (.num b _) => a == b
+/-- the numeric value of a domain id in thousandths; `none` for anything that is not an int / float64 -/
+def idVal : Option V → Option Int
+  | some (.num n _) => some (n * 1000)
+  | some (.frac m) => some m
+  | _ => none
+
+/-- `compareDomainID`: numeric equality across int / float64 (`float64(a) == b`), false for anything else -/
+def sameId (a b : Option V) : Bool :=
+  match idVal a, idVal b with
+  | some x, some y => x == y
   | _, _ => false
 
 /-- one key of `mergo.Merge(&local, shared)`: the shared value is taken when the local value is empty -/
@@ -152,15 +161,22 @@ def mergeChain (loc shared : Chain) : Chain :=
 def mergeIdeal (loc shared : Chain) : Chain :=
   loc ++ shared.filter fun p => (loc.get p.1).isNone
 
-/-- the per-chain loop of `processRawConfig` (`none` = error) -/
-def processChains (merge : Chain → Chain → Chain) (locals shareds : List Chain) : Option (List Chain) :=
-  locals.mapM fun c =>
-    -- `chain["id"] == 0` is an interface comparison: true only for a Go int 0
-    if c.get "id" == some (.num 0 false) || (c.get "id").isNone then none
-    else if c.get "type" == some (.str "") || (c.get "type").isNone then none
-    else match shareds.find? (fun s => sameId (c.get "id") (s.get "id")) with
-      | none => none
-      | some s => some (merge c s)
+/-- one iteration of the per-chain loop of `processRawConfig` (`none` = error) -/
+def processOne (merge : Chain → Chain → Chain) (shareds : List Chain) (c : Chain) : Option Chain :=
+  -- `chain["id"] == 0` is an interface comparison: true only for a Go int 0
+  if c.get "id" == some (.num 0 false) || (c.get "id").isNone then none
+  else if c.get "type" == some (.str "") || (c.get "type").isNone then none
+  else match shareds.find? (fun s => sameId (c.get "id") (s.get "id")) with
+    | none => none
+    | some s => some (merge c s)
+
+/-- the per-chain loop of `processRawConfig`: the first failing entry fails the load -/
+def processChains (merge : Chain → Chain → Chain) : List Chain → List Chain → Option (List Chain)
+  | [], _ => some []
+  | c :: cs, shareds =>
+    match processOne merge shareds c with
+    | none => none
+    | some m => (processChains merge cs shareds).map (m :: ·)
 
 /-- what the property asks of the merged entry at key `k`: a locally written value wins, otherwise the shared one -/
 def wanted (loc shared : Chain) (k : String) : Option V :=
@@ -172,6 +188,15 @@ def wanted (loc shared : Chain) (k : String) : Option V :=
     entry or the candidate) the candidate holds the local value if one was written, else the shared one, else nothing -/
 def PMerge (loc shared merged : Chain) : Bool :=
   (loc.map (·.1) ++ shared.map (·.1) ++ merged.map (·.1)).all fun k => merged.get k == wanted loc shared k
+
+/-- the same with the KNOWN empty-local-value point excused: where the local value is empty (0, "", false) and the
+    shared entry has the key, the candidate may hold the shared value instead -/
+def PMergeExc (loc shared merged : Chain) : Bool :=
+  (loc.map (·.1) ++ shared.map (·.1) ++ merged.map (·.1)).all fun k =>
+    merged.get k == wanted loc shared k ||
+    (match loc.get k, shared.get k with
+     | some v, some sv => v.isEmpty && merged.get k == some sv
+     | _, _ => false)
 
 /-- no local key holds an empty value (0, "", false) that the shared entry would replace by something else -/
 def NoEmptyClash (loc shared : Chain) : Prop :=
